@@ -153,9 +153,9 @@ def check_private(ctx: Ctx):
     for c in corpus():
         if c.get("kind", "private") == "private":
             cases.append((c.get("mode", "schema"), c["ops"]))
-    for _ in range(ctx.budget(200, 3000)):
+    for _ in range(ctx.budget(160, 3000)):
         cases.append(("schema", G.gen_schema_seq(r)))
-    for _ in range(ctx.budget(100, 1800)):
+    for _ in range(ctx.budget(80, 1800)):
         cases.append(("wild", G.gen_wild_seq(r)))
     exprs, keep = [], []
     n_or = 0
@@ -309,7 +309,7 @@ def yaml_phase(ctx: Ctx):
     base = _baseline_hashes().get(ctx.prop, {})
     for rel, cur in (("core/quantem.yaml", h), ("core/config.py (round 3)", extra)):
         b = base.get(rel)
-        if b is not None and b != cur:
+        if b is not None and "__error__" not in b and b != cur:      # (gen_baseline cannot ast-hash a yaml file)
             ctx.escalated = True
             ctx.cov.setdefault("drift", {})[rel] = sorted(k for k in cur if b.get(k) != cur[k])
             ctx.log("drift guard: %s changed -> quick budget escalated" % rel)
@@ -356,6 +356,204 @@ def yaml_phase(ctx: Ctx):
 def G_leaf_paths(t):
     from ..impl_C19 import leaf_paths
     return leaf_paths(t)
+
+
+# ------------------------------------------------------------------------------ translator tie (round 4)
+def tie_phase(ctx: Ctx):
+    """config.py -> build/C19/Gen_C19.v (harness/translate_C19.py, fail closed), the FIXED scripts
+    coq/gen_proofs/C19_GenProofs.v + C19_GenProperties.v re-proved on it (generated functions = the model's
+    definitions for all arguments), then the translator's own cross-test: the generated functions evaluated by
+    vm_compute against the real Python functions."""
+    import time
+    from .. import translate_C19 as T
+    t0 = time.time()
+    rec = {"status": "ok"}
+    ctx.cov["translator_tie"] = rec
+    for t in T.TRUSTED:
+        if t not in ctx.cov["trusted_base"]:
+            ctx.cov["trusted_base"].append(t)
+    gen_props = GEN_DIR / "C19_GenProperties.v"
+    gen_proofs = GEN_DIR / "C19_GenProofs.v"
+    gen_theorems = re.findall(r"(?m)^\s*Theorem\s+(\w+)", gen_props.read_text())
+    problems = []
+
+    def not_checked(why):
+        ctx.cov["obligations"] += len(gen_theorems)
+        for t in gen_theorems:
+            ctx.cov["theorems"][t] = "NOT CHECKED (%s)" % why
+
+    flags = COQ_FLAGS + ["-Q", str(ctx.dir), "Gen19"]
+    ok = False
+    try:
+        text, info = T.translate(SRC)
+        rec.update(info)
+    except T.Reject as e:
+        problems.append("translator tie: harness/translate_C19.py (fail closed) rejected the current source of "
+                        "quantem/core/config.py: %s" % e)
+        not_checked("translator rejected the source")
+        text = None
+    if text is not None:
+        gen = ctx.dir / "Gen_C19.v"
+        for stale in ("Gen_C19.vo", "C19_GenProofs.vo", "C19_GenProperties.vo"):
+            if (ctx.dir / stale).exists():
+                (ctx.dir / stale).unlink()
+        gen.write_text(text)
+        bad = ctx.static_scan([gen, gen_proofs, gen_props])
+        if bad:
+            problems.append("forbidden declarations: %s" % bad[:5])
+        rc, out = ctx.coq_make(["model/C19_PyLib.vo", "proof/C19_Proofs_PyLib.vo", "proof/C19_Proofs_Update.vo"])
+        if rc != 0:
+            problems.append("translator tie: library build failed:\n" + "\n".join(out.strip().splitlines()[-10:]))
+        rc, out = sh(["timeout", "300", "coqc"] + flags + [str(gen)], cwd=ctx.dir, timeout=330)
+        if rc != 0:
+            problems.append("translator tie: generated Gen_C19.v does not compile (a construct changed its type):\n"
+                            + "\n".join(out.strip().splitlines()[-12:]))
+            not_checked("generated file does not compile")
+        else:
+            ok = True
+            rc, out = sh(["timeout", "300", "coqc"] + flags + ["-o", str(ctx.dir / "C19_GenProofs.vo"), str(gen_proofs)],
+                         cwd=ctx.dir, timeout=330)
+            if rc != 0:
+                problems.append("translator tie: the functions translated from the current quantem/core/config.py no longer "
+                                "equal the model's definitions (fixed proof script C19_GenProofs.v fails):\n"
+                                + "\n".join(out.strip().splitlines()[-14:]))
+                not_checked("fixed proof script fails on the current source")
+            else:
+                cmd1 = ctx.cov["checker_cmd"]
+                saved = list(getattr(ctx, "_proof_problems", []))
+                if not ctx.require_proofs(props_name="C19_GenProperties", props_path=gen_props,
+                                          extra_flags=["-Q", str(ctx.dir), "Gen19"], make_targets=[]):
+                    problems += ["translator tie: " + x for x in ctx._proof_problems]
+                ctx._proof_problems = saved
+                ctx.cov["checker_cmd"] = (cmd1 + "  ;  [config.py -> build/C19/Gen_C19.v] python -m harness.translate_C19 && coqc "
+                                          "Gen_C19.v && coqc -o build/C19/C19_GenProofs.vo coq/gen_proofs/C19_GenProofs.v && "
+                                          "coqc coq/gen_proofs/C19_GenProperties.v")
+    rec["wall_s_proofs"] = round(time.time() - t0, 2)
+    if ok:
+        tie_crosstest(ctx, flags, rec)
+    rec["wall_s"] = round(time.time() - t0, 2)
+    if problems:
+        rec["status"] = "broken"
+        rec["problems"] = [x[:1500] for x in problems]
+        ctx.broken_obligation = "; ".join(filter(None, [ctx.broken_obligation] + problems))
+        ctx.log("PROOF OBLIGATION BROKEN (translator tie):", ("; ".join(problems))[:2500])
+    else:
+        ctx.log("translator tie: %d functions of config.py translated and proved equal to the model (%.1fs incl. cross-test)"
+                % (len(rec.get("functions", {})), rec["wall_s"]))
+
+
+TIE_PRE = """From QV.lib Require Import Prelude.
+From QV.model Require Import C19_Model C19_Model2 C19_PyLib.
+From Gen19 Require Import Gen_C19.
+From Coq Require Import String.
+Definition V := validate_nogpu.
+Definition D0 : depr_t := [].
+Definition A0 : alias_t := [].
+Definition upd (o n : items) (p : string) (d : cfg) := (fun r => (Node (fst r), snd r)) (gen_update V D0 A0 40 o n p d).
+Definition mrg (ds : list items) := match gen_merge V D0 A0 40 ds with inr m => (Node m, None) | inl e => (Node [], Some e) end.
+Definition gt (k : string) (d : items) := gen_get V D0 A0 k None (Node d) py_none.
+Definition cn (k : string) (c : cfg) := gen_canonical_name V D0 A0 k c.
+Definition ckv (k : string) (v : cfg) := match gen_check_key_val V D0 A0 k v with inr (k', v') => (inr (Node [(k', v')]) : err + cfg) | inl e => inl e end.
+Definition sx (k : string) (v : cfg) (d : items) :=
+  match gen_assign V D0 A0 40 (py_split_dot k) v d [] true [] with
+  | ((d1, recs), oe) => (Node d1, oe, match gen_exit V D0 A0 d1 recs with (d2, oe2) => (Node d2, oe2) end)
+  end.
+"""
+
+
+def tie_crosstest(ctx: Ctx, flags, rec):
+    """translator cross-test: gen_* (vm_compute) against the real functions"""
+    import copy
+    from quantem.core import config as C
+    from ..impl_C19 import classify, to_abstract, leaf_paths
+    r = random.Random(ctx.rng.randrange(1 << 30))
+    cases = []
+    for _ in range(ctx.budget(45, 500)):
+        cases.append(G.gen_direct(r))
+
+    def safe(f):
+        try:
+            return (None, f())
+        except Exception as e:  # noqa
+            return (classify(e), None)
+    exprs, want = [], []
+    for c in cases:
+        if c[0] == "merge":
+            out, tree = direct_impl(c)
+            exprs.append("mrg [%s]" % "; ".join(citems(d) for d in c[1]))
+            want.append(("merge", c, (out, tree)))
+            trees = c[1]
+        else:
+            out, tree = direct_impl(c)
+            dv = "py_none" if c[4] is None else "(Node %s)" % citems(c[4])
+            exprs.append("upd %s %s %s %s" % (citems(c[1]), citems(c[2]), cstr(c[3]), dv))
+            want.append(("update", c, (out, tree)))
+            trees = [c[1], c[2]]
+        base = copy.deepcopy(trees[0])
+        paths = [p for t in trees for p, _ in leaf_paths(t) if p]
+        if paths:
+            p = r.choice(paths)
+            key = ".".join(p if r.random() < 0.7 else list(p) + ["zz"])
+            if r.random() < 0.3:
+                key = key.replace("_", "-") if "_" in key else key.replace("-", "_")
+            # get
+            o, v = safe(lambda: C.get(key, config=copy.deepcopy(base)))
+            exprs.append("gt %s %s" % (cstr(key), citems(base)))
+            want.append(("get", [key, base], (o, None if o else to_abstract(v))))
+            # canonical_name on the dict and on scalars
+            k0 = key.split(".")[0]
+            for cont in (base, r.choice([None, 3, "a_b-" + k0, True])):
+                exprs.append("cn %s %s" % (cstr(k0), ccfg(cont)))
+                want.append(("canonical_name", [k0, cont], (None, C.canonical_name(k0, copy.deepcopy(cont)))))
+            # set._assign + set.__exit__ through set(...) on a private dict
+            if "device" not in key.split("."):
+                conf = copy.deepcopy(base)
+                val = r.choice([7, "x", {"q": 1}])
+                st = {}
+
+                def do_set():
+                    st["s"] = C.set({key: copy.deepcopy(val)}, config=conf)
+                    return sort_tree(to_abstract(conf))
+                o1, t1 = safe(do_set)
+                if o1 is None:
+                    o2, t2 = safe(lambda: (st["s"].__exit__(None, None, None), sort_tree(to_abstract(conf)))[1])
+                else:
+                    o2, t2 = None, None
+                exprs.append("sx %s %s %s" % (cstr(key), ccfg(val), citems(base)))
+                want.append(("set._assign/__exit__", [key, val, base], (o1, t1, o2, t2)))
+        dev = r.choice(["cpu", "cpu:0", "cpu:x", "gpu", 3, None, "CPU", "xcpu", {"a": 1}, True])
+        kk = r.choice(["device", "device", "viz"])
+        o, v = safe(lambda: C.check_key_val(kk, copy.deepcopy(dev)))
+        exprs.append("ckv %s %s" % (cstr(kk), ccfg(dev)))
+        want.append(("check_key_val", [kk, dev], (o, None if o else {v[0]: to_abstract(v[1])})))
+    vals = ctx.coq_eval("tiex", TIE_PRE, exprs, shard=ctx.budget(90, 150), extra_flags=["-Q", str(ctx.dir), "Gen19"])
+    nd = 0
+    for (fn, c, w), v in zip(want, vals):
+        ctx.dist("tie-crosstest/%s" % fn)
+        if fn in ("update", "merge"):
+            got = (from_coq_outcome(v[1]), sort_tree(from_coq_cfg(v[0])))
+            same = got[0] == w[0] and (w[1] is None or got[1] == w[1])
+        elif fn in ("get", "check_key_val"):
+            g = from_coq_res(v)
+            got = tuple(g)
+            same = (g[0] == "err" and g[1] == w[0]) if w[0] else (g[0] == "ok" and sort_tree(g[1]) == sort_tree(w[1]))
+        elif fn == "canonical_name":
+            got = v
+            same = v[0] == "inr" and v[1] == w[1]
+        else:
+            t1, oe1, (t2, oe2) = v
+            got = (from_coq_outcome(oe1), sort_tree(from_coq_cfg(t1)), from_coq_outcome(oe2), sort_tree(from_coq_cfg(t2)))
+            same = got[0] == w[0] and (w[0] is not None or (got[1] == w[1] and got[2] == w[2] and (w[2] is not None or got[3] == w[3])))
+        if not same:
+            nd += 1
+            if nd <= 3:
+                ctx.violation("translator-crosstest-%s" % fn.split("/")[0].replace(".", "-"),
+                              "the Gallina translation of quantem.core.config.%s (harness/translate_C19.py) and the real "
+                              "function disagree on %r: implementation %r, translation %r" % (fn, c, w, got),
+                              {"kind": "tiex", "fn": fn, "case": c}, found_input=False)
+    rec["crosstest_cases"] = len(want)
+    rec["crosstest_disagreements"] = nd
+    ctx.cov["traces_validated_against_impl"] += len(want)
 
 
 # ------------------------------------------------------------------------------ update / merge called directly
@@ -675,6 +873,7 @@ def run(ctx: Ctx):
     ]
     ctx.proofs_or_violation()
     probe, y_abs = yaml_phase(ctx)
+    tie_phase(ctx)
     check_private(ctx)
     check_nest(ctx)
     check_direct(ctx)
@@ -683,6 +882,14 @@ def run(ctx: Ctx):
 
 def replay(ctx: Ctx, path):
     rp = json.loads(open(path).read())
+    if rp.get("kind") == "tiex":
+        # a disagreement between the Gallina translation of one function and the real function (translator bug or a
+        # construct given a wrong fixed meaning): re-run the translator and its cross-test
+        print("translator cross-test case:", rp.get("fn"), json.dumps(rp.get("case")))
+        tie_phase(ctx)
+        t = ctx.cov.get("translator_tie", {})
+        print("translator tie:", t.get("status"), "cross-test disagreements:", t.get("crosstest_disagreements"))
+        return 1 if (t.get("status") != "ok" or t.get("crosstest_disagreements")) else 0
     if rp.get("kind") == "direct":
         c = rp["case"]
         print("case:", json.dumps(c))
